@@ -31,3 +31,4 @@ open SamVerif.C01
 #print axioms assemble_printBytes
 #print axioms cpe_anyslot_counterexample
 #print axioms cpe_prog_unused_many_preserves
+#print axioms launcher_independent
